@@ -10,7 +10,7 @@
 From MC Require Import Generated Model.Json Model.Apply Model.ApplyLaws.
 From MC Require Import Proofs.AssocLemmas Proofs.AssocLemmas2 Proofs.ApplyProofs Proofs.ApplyBase.
 From MC Require Import Proofs.ApplyCore Proofs.ApplyListMap Proofs.ApplyListMapCtx Proofs.ApplyListMapLaws.
-From MC Require Import Proofs.ApplyContain Proofs.ApplyIdemCore Proofs.ApplyIdemLM.
+From MC Require Import Proofs.ApplyContain Proofs.ApplyIdemCore Proofs.ApplyIdemLM Proofs.ApplyWf.
 Local Open Scope list_scope.
 
 Definition null_ok_items (key : string) (ol ll dl : list json) : bool :=
@@ -88,4 +88,16 @@ Proof.
   split; [eapply idempotent_partial; eauto|reflexivity].
 Qed.
 
+(* exactly the original conclusion (order-insensitive equality) *)
+Corollary idempotent_partial_jeqb : forall d o l r,
+  null_ok d o l = true ->
+  Hb d o l = true -> wf_json d = true -> wf_json o = true -> wf_json l = true ->
+  merge d o l = Ok r -> exists r', merge d r d = Ok r' /\ jeqb r r' = true.
+Proof.
+  intros d o l r HX Hh Hw Hwo Hwl Hm. exists r.
+  split; [eapply idempotent_partial; eauto|].
+  apply jeqb_refl. apply (merge_wf d o l r Hw Hwo Hm).
+Qed.
+
 Print Assumptions idempotent_partial.
+Print Assumptions idempotent_partial_jeqb.
